@@ -10,4 +10,9 @@ from props import cache_e2e, cacheunit
 def run(ses):
     cacheunit.obligations(ses, "C09")
     cacheunit.decode_obligations(ses, "C09")
+    # every byte prefix of the index is decodable text because the document is ASCII (json.dumps escapes): proved on encode
+    from props import codec
+
+    codec.composition(ses, "C09")
+    ses.resolve_engine_limits("codec", None, bound_text="")
     cache_e2e.torn_caches(ses, "C09")
